@@ -961,7 +961,7 @@ const (
 func genCases(tier string, seed uint64) []fw.Case {
 	n := 300
 	if tier == "thorough" {
-		n = 4000
+		n = 3000
 	}
 	r := fw.NewRng(seed ^ 0xC03)
 	var out []fw.Case
